@@ -207,7 +207,7 @@ func (c *collector) calleeHasRuleSwitch(fd *ast.FuncDecl) bool {
 }
 
 func (c *collector) record(fn, via, form string, types []ast.Expr, pos token.Pos) {
-	tl := TypeList{Func: fn, Via: via, Form: form, Line: fset.Position(pos).Line}
+	tl := TypeList{Func: fn, Via: via, Form: form, Line: fset.Position(pos).Line, Types: []string{}}
 	for _, t := range types {
 		name := text(t)
 		// an interface case reaches the implementing types only if their method handles this rule
